@@ -69,6 +69,8 @@ struct Shared {
     mwc: AtomicUsize,
     gates: Mutex<HashMap<u64, std::sync::mpsc::Receiver<Rel>>>,
     tx: UnboundedSender<Ev>,
+    /// `stallq` cases: the ctx route tops the outbound queue up with 32 KiB pushes until it stays full before it parks
+    flood: std::sync::atomic::AtomicBool,
 }
 
 /// body of every parked handler: count in, wait for the harness' token, count out, act
@@ -109,7 +111,21 @@ fn build_router(sh: &Arc<Shared>, nmw: u64) -> Router {
         .with_json_blocking("/pj", move |v| { let t = tag_of(&v)?; park(&b, t).map(Value::from) });
     for _ in 0..nmw { r = r.with_middleware(Pass(sh.clone())); }
     r.with_typed_blocking::<u64, u64, _>("/pt", move |t: u64| park(&c, t))
-        .with_json_ctx_blocking("/pc", move |_ctx: &CallContext, v| { let t = tag_of(&v)?; park(&d, t).map(Value::from) })
+        .with_json_ctx_blocking("/pc", move |ctx: &CallContext, v| {
+            let t = tag_of(&v)?;
+            if d.flood.load(Ordering::SeqCst) {
+                if let Some(peer) = ctx.peer() {
+                    let (mut refused, mut sent) = (0, 0);
+                    while sent < 64 {
+                        if peer.send_notify("/f", repe::NotifyBody::Raw(vec![0x55; 32 * 1024], repe::BodyFormat::RawBinary)).is_ok() { sent += 1; refused = 0; continue; }
+                        refused += 1;
+                        if refused > 60 { break; }
+                        std::thread::sleep(Duration::from_millis(2));
+                    }
+                }
+            }
+            park(&d, t).map(Value::from)
+        })
 }
 
 fn path_of(route: &str) -> Option<&'static [u8]> {
@@ -145,6 +161,8 @@ impl Peer {
     fn record(&mut self, b: Vec<u8>) {
         if b.len() < 48 { self.log.push(Msg { id: 0, ec: u32::MAX, notify: 0, body: b }); return; }
         let ql = le64(&b[24..32]) as usize;
+        // the pushes of a `stallq` case are not part of the observation
+        if b[11] == 1 && 48 + ql <= b.len() && &b[48..48 + ql] == b"/f" { return; }
         let body = if 48 + ql <= b.len() { b[48 + ql..].to_vec() } else { vec![] };
         self.log.push(Msg { id: le64(&b[16..24]), ec: le32(&b[44..48]), notify: b[11], body });
     }
@@ -211,9 +229,9 @@ fn client_runtime() -> &'static tokio::runtime::Runtime {
 struct Setup { sh: Arc<Shared>, rx: UnboundedReceiver<Ev>, modes: String, addr: std::net::SocketAddr, tasks: Tasks }
 
 /// router, hooks and a live server (on the shared multi-threaded runtime)
-fn start_server(cap: Option<u64>, nmw: u64, oq: Option<usize>) -> Result<Setup, String> {
+fn start_server(cap: Option<u64>, nmw: u64, oq: Option<usize>, stallq: bool) -> Result<Setup, String> {
     let (tx, rx) = unbounded_channel();
-    let sh = Arc::new(Shared { gauge: AtomicUsize::new(0), maxg: AtomicUsize::new(0), mwc: AtomicUsize::new(0), gates: Mutex::new(HashMap::new()), tx });
+    let sh = Arc::new(Shared { gauge: AtomicUsize::new(0), maxg: AtomicUsize::new(0), mwc: AtomicUsize::new(0), gates: Mutex::new(HashMap::new()), tx, flood: std::sync::atomic::AtomicBool::new(stallq) });
     let router = build_router(&sh, nmw);
     let modes: String = ["/in", "/pj", "/pt", "/pc"].iter().map(|p| match router.get(p).map(|h| h.execution()) {
         Some(Execution::Inline) => 'i', Some(Execution::OffReader) => 'o', _ => '?' }).collect();
@@ -224,16 +242,42 @@ fn start_server(cap: Option<u64>, nmw: u64, oq: Option<usize>) -> Result<Setup, 
     // `oq`: a tiny outbound queue, so that replies are produced faster than the writer drains them
     let srv = match oq { Some(q) => srv.with_outbound_capacity(q), None => srv };
     let (addr, task) = net::runtime().block_on(async move {
-        let l = tokio::time::timeout(T_CONN, WebSocketServer::listen("127.0.0.1:0")).await.map_err(|_| "timeout:ws-bind".to_string())?.map_err(|e| format!("ws-bind:{e}"))?;
+        let l = if stallq {
+            // accepted sockets inherit a 4 KiB send buffer: a peer that does not read stalls the writer at once
+            use socket2::{Domain, Socket, Type};
+            let s = Socket::new(Domain::IPV4, Type::STREAM, None).map_err(|e| format!("socket:{e}"))?;
+            let _ = s.set_reuse_address(true);
+            s.set_send_buffer_size(4096).map_err(|e| format!("sndbuf:{e}"))?;
+            let a: std::net::SocketAddr = "127.0.0.1:0".parse().unwrap();
+            s.bind(&a.into()).map_err(|e| format!("bind:{e}"))?;
+            s.listen(16).map_err(|e| format!("listen:{e}"))?;
+            s.set_nonblocking(true).map_err(|e| format!("nonblocking:{e}"))?;
+            tokio::net::TcpListener::from_std(s.into()).map_err(|e| format!("from_std:{e}"))?
+        } else {
+            tokio::time::timeout(T_CONN, WebSocketServer::listen("127.0.0.1:0")).await.map_err(|_| "timeout:ws-bind".to_string())?.map_err(|e| format!("ws-bind:{e}"))?
+        };
         let addr = l.local_addr().map_err(|e| format!("ws-addr:{e}"))?;
         Ok::<_, String>((addr, tokio::spawn(async move { let _ = srv.serve_listener(l, "/repe").await; })))
     })?;
     Ok(Setup { sh, rx, modes, addr, tasks: Tasks(vec![task]) })
 }
 
-async fn run_script(cap: Option<u64>, nmw: u64, events: &[Event], setup: Setup, pipe: u8) -> Result<String, String> {
+async fn run_script(cap: Option<u64>, nmw: u64, events: &[Event], setup: Setup, pipe: u8, stallq: Option<u64>) -> Result<String, String> {
     let Setup { sh, rx, modes, addr, tasks } = setup;
-    let (ws, _) = tokio::time::timeout(T_CONN, tt::connect_async_with_config(format!("ws://{addr}/repe"), None, true)).await.map_err(|_| "timeout:raw-connect".to_string())?.map_err(|e| format!("raw-connect:{e}"))?;
+    let (ws, _) = if stallq.is_some() {
+        use socket2::{Domain, Socket, Type};
+        let s = Socket::new(Domain::IPV4, Type::STREAM, None).map_err(|e| format!("socket:{e}"))?;
+        s.set_recv_buffer_size(4096).map_err(|e| format!("rcvbuf:{e}"))?;
+        s.connect(&addr.into()).map_err(|e| format!("raw-connect:{e}"))?;
+        s.set_nonblocking(true).map_err(|e| format!("nonblocking:{e}"))?;
+        let tcp = tokio::net::TcpStream::from_std(s.into()).map_err(|e| format!("from_std:{e}"))?;
+        let _ = tcp.set_nodelay(true);
+        tokio::time::timeout(T_CONN, tt::client_async(format!("ws://{addr}/repe"), tt::MaybeTlsStream::Plain(tcp))).await.map_err(|_| "timeout:raw-connect".to_string())?.map_err(|e| format!("raw-connect:{e}"))?
+    } else {
+        tokio::time::timeout(T_CONN, tt::connect_async_with_config(format!("ws://{addr}/repe"), None, true)).await.map_err(|_| "timeout:raw-connect".to_string())?.map_err(|e| format!("raw-connect:{e}"))?
+    };
+    // `stallq`: until the first refusal is due, the peer does not read (handler events only)
+    let mut stalled = stallq.is_some();
     let mut p = Peer { ws, rx, log: vec![], started: HashSet::new(), exited: HashSet::new(), inline_ran: HashSet::new(), sat: 0, pan: 0, other: 0, dead: None };
 
     let mut rel_tx: HashMap<u64, std::sync::mpsc::Sender<Rel>> = HashMap::new();
@@ -301,9 +345,23 @@ async fn run_script(cap: Option<u64>, nmw: u64, events: &[Event], setup: Setup, 
                     let (mut from, sat0) = (p.log.len(), p.sat);
                     let t_sent = Instant::now();
                     match presend.get(&id) { Some(f0) if tries == 0 => from = *f0, _ => p.send(f.clone()).await? }
-                    let ok = p.pump(Instant::now() + T_STEP, |p| p.started.contains(&id) || if notify { p.sat > sat0 } else { p.find(from, id).is_some() }).await;
+                    let mut waited_behind_writer = false;
+                    if stalled {
+                        if cap.is_some_and(|c| live >= c) {
+                            waited_behind_writer = true;
+                            // a request at the cap while the queue is full and the writer is stuck: the peer keeps
+                            // not reading for `stallq` ms, then reads everything
+                            tokio::time::sleep(Duration::from_millis(stallq.unwrap_or(0))).await;
+                            stalled = false;
+                        } else {
+                            // wait for the handler to have filled the queue and parked, without reading the socket
+                            let until = Instant::now() + T_STEP;
+                            while !p.started.contains(&id) && Instant::now() < until { p.drain(); tokio::time::sleep(Duration::from_millis(2)).await; }
+                        }
+                    }
+                    let ok = if stalled { p.started.contains(&id) } else { p.pump(Instant::now() + T_STEP, |p| p.started.contains(&id) || if notify { p.sat > sat0 } else { p.find(from, id).is_some() }).await };
                     // a request refused at the cap is answered at once (the reader does not wait for a slot)
-                    if ok && !notify && !p.started.contains(&id) { slow_refusal_ms = slow_refusal_ms.max(t_sent.elapsed().as_millis() as u64); }
+                    if ok && !notify && !waited_behind_writer && !p.started.contains(&id) { slow_refusal_ms = slow_refusal_ms.max(t_sent.elapsed().as_millis() as u64); }
                     p.drain();
                     if !ok { aborted = true; outs.push(format!("x{}", hx(X_TIMEOUT))); break; }
                     if p.started.contains(&id) { live += 1; outs.push("a".into()); break; }
@@ -416,15 +474,16 @@ fn run_case(line: &str) -> String {
         Some((cap, ph(f.get("mw")?)?, parse_events(f.get("ev")?)?))
     })();
     let oq = f.get("oq").and_then(|s| ph(s)).map(|q| q as usize);
+    let stallq = f.get("stallq").and_then(|s| ph(s));
     let pipe = f.get("pipe").and_then(|s| s.parse::<u8>().ok()).unwrap_or(0);
     let Some((cap, nmw, events)) = parsed else { return "crash=badcase:parse".into() };
     if cap == Some(0) || nmw > 8 { return "crash=badcase:cap-or-mw".into(); }
     let r = guard(move || {
-        let setup = start_server(cap, nmw, oq)?;
+        let setup = start_server(cap, nmw, oq, stallq.is_some())?;
         // the gates close when `sh` and the script's senders are gone, so every
         // parked handler leaves even when the script is cut short
         client_runtime().block_on(async {
-            match tokio::time::timeout(T_CASE, run_script(cap, nmw, &events, setup, pipe)).await { Ok(r) => r, Err(_) => Err("timeout:case".into()) }
+            match tokio::time::timeout(T_CASE, run_script(cap, nmw, &events, setup, pipe, stallq)).await { Ok(r) => r, Err(_) => Err("timeout:case".into()) }
         })
     });
     match r { Ok(Ok(obs)) => obs, Ok(Err(e)) => format!("crash={}", clean(e)), Err(()) => "crash=panic".into() }
@@ -590,6 +649,20 @@ fn gen_cases(seed: u64, thorough: bool) -> Vec<String> {
         while !s.live.is_empty() { s.exit(0, "p"); }
         s.inline(&mut rng, false);
         out.push(format!("{} oq={} pipe=2", s.line((k % 3) as u64), hx(1 + (k as u64) % 2)));
+    }
+    // a stalled peer at the cap (`stallq=<ms>`): the handler holding the last slot (ctx route) keeps the
+    // tiny outbound queue full with 32 KiB pushes, the peer does not read; a request arriving at the cap
+    // then waits behind the writer for 150..600 ms - and is refused with its id, nothing is lost and the
+    // connection lives on, once the peer reads again
+    for k in 0..(if thorough { 8 } else { 3 }) {
+        let c = 1 + (k % 2) as u64;
+        let mut s = Script::new(Some(c), 0xc00);
+        for _ in 0..c { let id = s.fresh(&mut rng); s.arrive(id, false, 'c'); }
+        for _ in 0..rng.range(1, 3) { s.park(&mut rng, false); }
+        s.inline(&mut rng, false);
+        while !s.live.is_empty() { let h = some_how(&mut rng); s.exit(0, h); }
+        s.inline(&mut rng, false);
+        out.push(format!("{} oq={} stallq={}", s.line(0), hx(1 + (k as u64) % 3), hx([150u64, 300, 600][k % 3])));
     }
     out.into_iter().enumerate().map(|(i, c)| format!("i={i} {c}")).collect()
 }
